@@ -262,6 +262,25 @@ func run(c *vf.Ctx) {
 			m.SkipStart = 3
 			m.H += 3
 		}
+		{
+			// transaction combinatorics (first: small): one setup block, then every ordered pair (thorough: triple) of
+			// actions merged into ONE transaction; every such block is also reverted
+			mm := *m
+			mm.Name, mm.Menu, mm.D, mm.K, mm.R, mm.H = "merged", chain.MergedMenu, 2, 1, 0, m.H
+			if !c.Quick() {
+				mm.Menu = chain.MergedMenu3
+			}
+			mm.OnTransition = func(x *chain.Explorer, prev, w *chain.World, path []string) {
+				nw := w.Clone()
+				if p := nw.Revert(); p != nil {
+					x.Violate(p.Sig, p.Desc, append(append([]string(nil), path...), "revert(1)"))
+				}
+				c.Count("merged_blocks_reverted", 1)
+			}
+			xm := chain.NewExplorer(c, &mm, "C05")
+			xm.Run()
+			xm.Report(n + "/merged/")
+		}
 		x := chain.NewExplorer(c, m, "C05")
 		x.Run()
 		x.Report(n + "/")
